@@ -21,7 +21,7 @@ from netconan import anonymize_files as AF
 from netconan import ip_anonymization as ipa
 from netconan import sensitive_item_removal as SIR
 
-WORDS = ["kitten", "zurnet", "cafe", "addr", "conan"]      # "addr" is part of reserved words, "conan" of the placeholders
+WORDS = ["kitten", "zurnet", "cafe", "addr", "conan", "65001"]      # "addr" is part of reserved words, "conan" of the placeholders, "65001" is also a listed AS number
 FIXED_T7 = "0822455D0A16544541"          # the same type-7 secret wherever the fixed-secret kinds occur
 BASE_ASNS = ["65001", "12", "4200000001", "0", "1"]
 _as_cache = {}
@@ -83,6 +83,7 @@ def kind_tokens(kind, r):
         "standby-keystring": ("", [("standby", None), ("1", None), ("authentication", None), ("md5", None), ("key-string", None), ("7", None), (FIXED_T7, "pwd"), ("timeout", None), ("30", None)]),
         "v6-with-word": (" ", [("peer", None), (r.choice(["2001:db8:42::cafe:1", "2001:db8::cafe", "cafe:1::2"]), "ip|word")]),
         "resv-word": (r.choice(["", " "]), [("no", None), (r.choice(["ip", "ipv6", "ipaddr"]), None), (r.choice(["address", "ipaddr", "address-family"]), None)]),
+        "key-quoted-twice": ("", [("key", None), ('"%s"' % sec.replace('"', "x"), "pwd"), ("comment", None), ('"lab', None), ('link"', None), ("primary", None)]),
         "v4-mask-zeros": (" ", [("netmask", None), (v4, "ip"), (r.choice(["255.255.255.000", "000.000.000.255", "255.255.000.000"]), None)]),
     }
     return table[kind]
